@@ -452,24 +452,29 @@ impl Parser {
                 self.expect_token(SemiColon);
                 self.end_node();
             }
-            _ => self.expect_tokens_recover([
-                Keyword(Kw::Wait),
-                Keyword(Kw::Assert),
-                Keyword(Kw::Report),
-                Keyword(Kw::If),
-                Keyword(Kw::Case),
-                Keyword(Kw::For),
-                Keyword(Kw::Loop),
-                Keyword(Kw::While),
-                Keyword(Kw::Next),
-                Keyword(Kw::Exit),
-                Keyword(Kw::Return),
-                Keyword(Kw::Null),
-                Keyword(Kw::With),
-                Identifier,
-                LeftPar,
-                LtLt,
-            ]),
+            _ => {
+                // The statement start was determined by looking past a label.
+                // Consume it, so that the next token is the unexpected one.
+                self.opt_label();
+                self.expect_tokens_recover([
+                    Keyword(Kw::Wait),
+                    Keyword(Kw::Assert),
+                    Keyword(Kw::Report),
+                    Keyword(Kw::If),
+                    Keyword(Kw::Case),
+                    Keyword(Kw::For),
+                    Keyword(Kw::Loop),
+                    Keyword(Kw::While),
+                    Keyword(Kw::Next),
+                    Keyword(Kw::Exit),
+                    Keyword(Kw::Return),
+                    Keyword(Kw::Null),
+                    Keyword(Kw::With),
+                    Identifier,
+                    LeftPar,
+                    LtLt,
+                ])
+            }
         }
     }
 
